@@ -603,6 +603,32 @@ static void nullAddressCase(Rng &R, const char *flavor) {
   if (R.chance(1, 2)) { snprintf(b, sizeof b, "rq %u 254 60928", (unsigned)R.below(250)); exec(b); }
 }
 
+// timers armed to land exactly on (or next to) the 32-bit scheduler's "disabled" sentinel 0xFFFFFFFF: a claim started at
+// 0xFFFFFFFF-250 and a product / configuration retry armed at 0xFFFFFFFF-(187+8*src) / -(187+10*src)
+static void sentinelCase(Rng &R, const char *flavor, int kind) {
+  int devs = (int)R.range(1, 3); int d = (int)R.below(devs); unsigned src = 20 + (unsigned)d;
+  uint64_t delay = kind == 0 ? 250 : (kind == 1 ? 187 + 8 * src : 187 + 10 * src);
+  uint64_t target = 0xFFFFFFFFULL - delay + (uint64_t)R.range(-1, 1) * (R.chance(1, 3) ? 1 : 0);   // mostly exact, sometimes +-1
+  char b[160]; snprintf(b, sizeof b, "new %s %u 1 %d %llu", flavor, kind == 0 ? 40u : (unsigned)R.range(2, 8), devs, (unsigned long long)(target - 700 - (uint64_t)R.range(1, 400))); exec(b);
+  exec("open");
+  if (g_now > target) return;
+  exec("t " + std::to_string(target - g_now));
+  if (kind == 0) {
+    exec("claim " + std::to_string(d));
+    for (int k = 0; k < 4; k++) {
+      snprintf(b, sizeof b, "rq %u %u %lu", (unsigned)R.below(250), R.chance(1, 2) ? 255u : src, R.chance(1, 2) ? 60928UL : (R.chance(1, 2) ? 126996UL : 4711UL)); exec(b);
+      exec("t " + std::to_string(R.range(1, 60)));
+    }
+    exec("t 260"); snprintf(b, sizeof b, "rq %u %u 4711", (unsigned)R.below(250), src); exec(b);
+  } else {
+    exec("accdef 0");
+    snprintf(b, sizeof b, "rq %u %u %lu", (unsigned)R.below(250), R.chance(1, 4) ? 255u : src, kind == 1 ? 126996UL : 126998UL); exec(b);
+    exec("accdef 1");
+    exec("t " + std::to_string(delay + 2 + (uint64_t)R.range(0, 50))); exec("poll");
+    exec("t " + std::to_string(R.range(100, 600))); exec("poll");
+  }
+}
+
 int main(int argc, char **argv) {
   C.init(argc, argv);
   C.rule = "case = one node (new..) with its op sequence; non-trivial = a request that must draw an answer or falls into a claim window; distinct = (answer class, addressed/broadcast, requested PGN, device count, handler mode, driver refusal)";
@@ -649,7 +675,7 @@ int main(int argc, char **argv) {
   }
   // (3) random configurations and histories
   int ncases = C.thorough ? 3000 : 400;
-  for (int i = 0; i < ncases; i++) { randomCase(R, flavor); if (i % 4 == 0) retryCase(R, flavor); if (i % 4 == 1) bothPendingCase(R, flavor, i / 4); if (i % 40 == 2) nullAddressCase(R, flavor); }
+  for (int i = 0; i < ncases; i++) { randomCase(R, flavor); if (i % 4 == 0) retryCase(R, flavor); if (i % 4 == 1) bothPendingCase(R, flavor, i / 4); if (i % 40 == 2) nullAddressCase(R, flavor); if (i % 10 == 3) sentinelCase(R, flavor, (i / 10) % 3); }
   // (4) thorough: all 2^24 PGNs against the oracle, and a stratified subset through the model
   if (C.thorough) {
     char b[160]; snprintf(b, sizeof b, "new %s 40 1 3 123456", flavor); exec(b);
